@@ -186,6 +186,22 @@ static void mem_ensure_segments_sorted(MemoryObject* m)
 {
     if (!m->segments_sorted) {
         qsort(m->segments, (size_t)m->segment_count, sizeof(SegmentRange), segment_compare);
+        /* merge overlapping / touching ranges: the binary search of word_is_valid needs
+           disjoint ranges (the valid set - the union - is unchanged) */
+        if (m->segment_count > 1) {
+            Py_ssize_t last = 0;
+            for (Py_ssize_t i = 1; i < m->segment_count; i++) {
+                if (m->segments[i].start <= m->segments[last].end) {
+                    if (m->segments[i].end > m->segments[last].end) {
+                        m->segments[last].end = m->segments[i].end;
+                    }
+                } else {
+                    last++;
+                    m->segments[last] = m->segments[i];
+                }
+            }
+            m->segment_count = last + 1;
+        }
         m->segments_sorted = 1;
     }
 }
@@ -193,8 +209,9 @@ static void mem_ensure_segments_sorted(MemoryObject* m)
 /* is the word-address inside any segment? (binary search) */
 static int word_is_valid(MemoryObject* m, uint64_t word_address)
 {
-    Py_ssize_t lo = 0, hi = m->segment_count - 1;
+    Py_ssize_t lo = 0, hi;
     mem_ensure_segments_sorted(m);
+    hi = m->segment_count - 1; /* after the sort: it may have merged ranges */
     while (lo <= hi) {
         Py_ssize_t mid = (lo + hi) / 2;
         if (word_address < m->segments[mid].start) {
